@@ -47,9 +47,27 @@ def main():
         rc1, out1 = sh(run, cwd=scratch)
         res["demo_with_change"] = "fail" if rc1 != 0 else "PASSES"
         res["confirmed"] = (rc0 == 0 and rcb == 0 and rct == 0 and rc1 != 0)
+        if os.environ.get("MUT_SCRATCH"):
+            # triage run beside other work: the checks read the scratch worktree
+            # (VSYM_REPO) and write to a scratch directory; /repo is not touched
+            os.remove(os.path.join(scratch, pkgdir, demoname))
+            sh("git checkout -- go.sum go.mod", cwd=scratch)
+            import tempfile
+            outdir = tempfile.mkdtemp(prefix="vsym-mut-")
+            t0 = time.time()
+            res["checks"] = {}
+            for p in [pid] + [p for p in sys.argv[4:] if p.startswith("C")]:
+                r = subprocess.run("bin/vcheck %s %s" % (p, tier), shell=True, cwd=V, env=dict(ENV, VSYM_REPO=scratch, VSYM_SCRATCH=outdir), capture_output=True, text=True, timeout=3600)
+                outc = r.stdout + r.stderr
+                lines = [l for l in outc.splitlines() if l.startswith(("VIOLATION", "INCONCLUSIVE", "KNOWN", "  replay", "  obligation")) or l.startswith(p + " ")]
+                res["checks"][p] = {"exit": r.returncode, "lines": lines[:12]}
+            res["check_wall_s"] = round(time.time() - t0, 1)
+            shutil.rmtree(outdir, ignore_errors=True)
     finally:
         sh("git -C /repo worktree remove --force %s" % scratch)
         shutil.rmtree(scratch, ignore_errors=True)
+    if os.environ.get("MUT_SCRATCH"):
+        return finish(res, pid, sid, tier, patch, demo, meta)
     # run the check against /repo with the change applied
     rc, out = sh("git -C /repo status --porcelain")
     if out.strip():
@@ -67,8 +85,14 @@ def main():
     finally:
         sh("git -C /repo checkout -- .")
     res["check_wall_s"] = round(time.time() - t0, 1)
-    det = any(c["exit"] == 1 for c in res["checks"].values())
+    return finish(res, pid, sid, tier, patch, demo, meta)
+
+
+def finish(res, pid, sid, tier, patch, demo, meta):
+    det = any(c["exit"] == 1 for c in (res.get("checks") or {}).values())
     res["detected"] = det
+    if not res.get("confirmed"):
+        return res  # not kept: the change or its demonstration did not hold up
     out = os.path.join(V, "seeded", sid)
     os.makedirs(out, exist_ok=True)
     shutil.copy(patch, os.path.join(out, "patch.diff"))
@@ -77,7 +101,7 @@ def main():
     meta["confirmation"] = {k: res.get(k) for k in ("demo_on_original", "patch_applies", "builds", "existing_suite_with_change", "demo_with_change", "confirmed")}
     meta["what_i_ran"] = ["git worktree add <scratch> HEAD; demo test on the original; git apply patch.diff; go build ./...; go test -mod=mod -vet=off -count=1 ./... ; demo test with the change; worktree removed",
                           "git -C /repo apply patch.diff; bin/vcheck %s %s; git -C /repo checkout -- ." % (pid, tier)]
-    meta["check_result"] = res["checks"]
+    meta["check_result"] = res.get("checks")
     meta["detected"] = det
     json.dump(meta, open(os.path.join(out, "meta.json"), "w"), indent=1)
     return res
